@@ -103,11 +103,11 @@
 			{{ if $service.Scope.IsDefault }}
 				s.SetScopeDefault()
 			{{ else if $service.Scope.IsShared }}
-				s.ScopeShared()
+				s.SetScopeShared()
 			{{ else if $service.Scope.IsContextual }}
-				s.ScopeContextual()
+				s.SetScopeContextual()
 			{{ else if $service.Scope.IsNonShared }}
-				s.ScopeNonShared()
+				s.SetScopeNonShared()
 			{{ end }}
 		{{ end }}
 		c.OverrideService({{ export $service.Name }}, s)
